@@ -89,6 +89,20 @@ memcpy(void *dst, const void *src, size_t n)
         unsigned char *d = (unsigned char *) dst;
         const unsigned char *s = (const unsigned char *) src;
         size_t i;
+        /* the fixed-size scalar copies of unaligned.h (load/store_{le,be}_u{16,32,64}) as one typed
+         * access, so that constants still fold in the symbolic executor */
+        if (n == 2) {
+                *(uint16_t *) dst = *(const uint16_t *) src;
+                return dst;
+        }
+        if (n == 4) {
+                *(uint32_t *) dst = *(const uint32_t *) src;
+                return dst;
+        }
+        if (n == 8) {
+                *(uint64_t *) dst = *(const uint64_t *) src;
+                return dst;
+        }
         for (i = 0; i < n; i++)
                 d[i] = s[i];
         return dst;
